@@ -1092,6 +1092,40 @@ func genCase(h *rt.H) []string {
 	return g.ops
 }
 
+// probeHandleSplit: ORDER-PARAMETRIC probe of "all of a handle's addresses together or none".
+// garbageCollectKnownLeaks ranges over the Go map confirmedLeaks; when one allocation of a handle is
+// resurrected by the final API check in the same pass, whether its handle-mate is released depends on
+// which of the two the map yields first.  Go map order cannot be chosen, so the scenario is run on many
+// fresh controllers; the property's oracle (handle-split) fires in doSync for the runs that split.
+// The scenario is not part of the op stream (its outcome is not a function of the ops).
+func probeHandleSplit(h *rt.H) {
+	scenario := []string{"new 60", "insync", "cnode 1 1", "knode 1 1",
+		"block 1 1 0:4:p:1:4:1;1:4:p:1:4:2",
+		"pod 4 0 1 1 0 1.1", // informer cache has lost the pod; the API has it, reporting only address 1.1
+		"sync 0", "tick 70", "sync 1"}
+	split, atomic := 0, 0
+	for i := 0; i < 64; i++ {
+		s := newState(-1)
+		last := ""
+		for _, op := range scenario {
+			if split > 0 {
+				s.failed["handle-split"] = true // one concrete record is enough
+			}
+			last = exec(h, s, op)
+		}
+		if strings.HasPrefix(last, "rel=1.0/4/1 ") {
+			split++
+		} else if strings.HasPrefix(last, "rel=- ") {
+			atomic++
+		} else {
+			h.OracleFail("probe-unexpected", "handle-split probe: unexpected outcome "+last, map[string]any{"history": scenario})
+		}
+	}
+	h.Extra["probe_handle_split"] = map[string]int{"runs": 64, "released_one_of_two": split, "released_none": atomic}
+	h.Case("probe")
+	h.Op("probe handle-split", "ok")
+}
+
 func main() {
 	h := rt.New()
 	defer h.Close()
@@ -1132,6 +1166,7 @@ func main() {
 		run(h.ReplayLines(), "replay")
 		return
 	}
+	probeHandleSplit(h)
 	for i := 0; i < h.N; i++ {
 		run(genCase(h), "gen")
 	}
